@@ -14,7 +14,8 @@ pub struct C15;
 
 const NAMES: &[&str] = &["a", "ab", "a_b", "b", "a_b_c", "b_c", "c", "b__c", "a_b__c", "a__b_c", "_a_b", "a_b_"];
 const HELPS: &[&str] = &["h", "hh", "h\u{ff}", "é", "h h"];
-const LNAMES: &[&str] = &["a", "b", "ab", "ba", "c"];
+// (upper-case and underscore names: byte order, the order of `str`, differs from case-folded and from "alphabetical" order)
+const LNAMES: &[&str] = &["a", "b", "ab", "ba", "c", "A", "B", "Ab", "aB", "_", "a_", "Z"];
 const VALUES: &[&str] = &["", "a", "b", "ab", "ba", "é", "a\u{ff}", "\u{ff}"];
 
 #[derive(Clone, Debug)]
@@ -169,7 +170,7 @@ impl Property for C15 {
     }
     fn rule(&self) -> &'static str {
         "case = pair of descriptors over small adversarial pools (names a/ab/a_b/b..., values ''/a/b/ab/ba/e-acute/0xff-like, label \
-         names a/b/ab/ba/c), the second derived from the first by: nothing, permuting insertion orders and hasher seeds, re-splitting \
+         names a/b/ab/ba/c/A/B/Ab/aB/_/a_/Z), the second derived from the first by: nothing, permuting insertion orders and hasher seeds, re-splitting \
          the fq name into namespace/subsystem/name, boundary-shifting name/values, moving a name between constant and variable \
          labels, changing one value / the help / a label name, or (10%) one component replaced by a 24-83 character string in A \
          and by that string with a region removed / repeated / one character changed in B; built through Desc::new, Opts and HistogramOpts; in a quarter of the cases a refused descriptor is requested in between. Oracle: independently \
